@@ -1,6 +1,7 @@
 import Robust.Irc.Proofs.H2Base
 /-! NAMES, WHO, WHOIS -/
 namespace Robust.Irc
+open Rd
 open AMap
 
 /-! ### NAMES -/
